@@ -238,6 +238,83 @@ def purge(ctx: Any) -> List[Ob]:
     return obs
 
 
+@rule('C08.COMPLETE', 'N', expect_min=3)
+def complete(ctx: Any) -> List[Ob]:
+    """The blocking API returns only after the whole sequence has been transmitted.  The async register / update /
+    unregister routines hand back the broadcast task (announcements or goodbyes run in the background); every blocking
+    wrapper must wait for that task as well (sibling agreement: they all go through await_awaitable), else the caller
+    can close the instance after the first goodbye and the remaining two are dropped by the closed gate."""
+    R = 'C08.COMPLETE'
+    prog = ctx.prog
+    zc = prog.cls(ZC)
+    obs: List[Ob] = []
+    background = {}
+    for n, f in zc.methods.items():
+        if f.is_async and any(isinstance(r, ast.Return) and isinstance(r.value, ast.Call) and call_name(r.value) in ('ensure_future', 'create_task') for r in walk_local_ordered(f.node)):
+            background[n] = f
+    if len(background) < 3:
+        raise AnalysisError(f'anchor vanished: async routines that return their broadcast task (found {sorted(background)})')
+    for n, f in sorted(zc.methods.items()):
+        if f.is_async:
+            continue
+        for c in walk_local_ordered(f.node):
+            if isinstance(c, ast.Call) and call_name(c) == 'run_coro_with_timeout' and c.args:
+                inner = c.args[0]
+                direct = isinstance(inner, ast.Call) and call_name(inner) in background
+                wrapped = isinstance(inner, ast.Call) and call_name(inner) == 'await_awaitable' and inner.args and isinstance(inner.args[0], ast.Call) and call_name(inner.args[0]) in background
+                if direct or wrapped:
+                    tgt = call_name(inner if direct else inner.args[0])
+                    obs.append(ob(R, f, c, f'{n}() blocks until the broadcast task returned by {tgt} has finished (all three transmissions made)', wrapped, f'the task returned by {tgt} is not awaited: {n}() returns before the sequence has been transmitted' if direct else ''))
+    return obs
+
+
+@rule('C08.REVALIDATE', 'N', expect_min=1)
+def revalidate(ctx: Any) -> List[Ob]:
+    """An announcement in flight does not outlive the registration: the broadcast task sleeps between transmissions, and
+    while it sleeps the service may be unregistered (its goodbyes take 250 ms, the announcements 450 ms).  After every
+    suspension, a transmission of the service's records with their normal TTL must be preceded by a fresh look at the
+    registry (goodbye copies -- override TTL 0 -- are exempt)."""
+    R = 'C08.REVALIDATE'
+    prog = ctx.prog
+    zc = prog.cls(ZC)
+    obs: List[Ob] = []
+    for n, f in sorted(zc.methods.items()):
+        if not f.is_async:
+            continue
+        gen = [c for c in walk_local_ordered(f.node) if isinstance(c, ast.Call) and call_name(c) == 'generate_service_broadcast']
+        if not gen:
+            continue
+        me = f.params[0]
+        ttl_args = {norm(c.args[1]) for c in gen if len(c.args) > 1}
+        ttl_p = next((p for p in f.params if p in ttl_args), None)
+
+        def eff(node: Any, evl: Any, me: str = me) -> List[Any]:
+            out = []
+            if any(isinstance(x, ast.Attribute) and self_attr(x, me) == 'registry' for e in node.exprs() for x in ast.walk(e)):
+                out.append('REGISTRY')
+            if any(isinstance(x, ast.Await) for e in node.exprs() for x in ast.walk(e)):
+                out.append('SUSPEND')
+            if any(call_name(c) == 'async_send' for c in node.calls()):
+                out.append('SEND')
+            return out
+
+        atoms = {ttl_p: None} if ttl_p else {}
+        oc, und = traces(ctx, f, atoms, eff, loop_bound=2, for_iter=lambda nd, e: True)
+        bad = []
+        for t in oc:
+            seq = [x for x in strip_ret(t)]
+            for i, x in enumerate(seq):
+                if x == 'SEND' and 'SUSPEND' in seq[:i]:
+                    last = max(j for j in range(i) if seq[j] == 'SUSPEND')
+                    if 'REGISTRY' not in seq[last:i]:
+                        bad.append(tuple(seq))
+                        break
+        obs.append(ob(R, f, gen[0], f'{n}: after each wait the task checks that the service is still registered before it transmits the records with their normal TTL', bool(oc) and not bad, f'effect sequence {bad[0]}: an announcement can follow the goodbyes of a service unregistered while the task slept' if bad else ''))
+    if not obs:
+        raise AnalysisError('anchor vanished: coroutine that broadcasts a service')
+    return obs
+
+
 @rule('C08.GATE', 'D', expect_min=2)
 def gate(ctx: Any) -> List[Ob]:
     """Nothing is transmitted after close (same rule as C17.GATE)."""
@@ -256,4 +333,4 @@ EXPLANATION = (
     'must afterwards on all paths reach a queue-purging method for each container. C08.GATE (decided): C17.GATE. Not decided: the '
     'trace-level statement over all interleavings [X].'
 )
-RULES = [goodbye, purge, gate]
+RULES = [goodbye, purge, complete, revalidate, gate]
